@@ -111,7 +111,7 @@ def St.cdRunning (s : St) : Bool := s.cd.isSome || s.cdWait
 
 /-- Ghost bookkeeping after any change of `last`/`pac`: note the first moment the value set is on the bus. -/
 def noteOnBus (s : St) (t : Nat) (why : Why) : St :=
-  if s.onBus.isNone && s.pac.isSome && s.last == s.pac then { s with onBus := some (t, why) } else s
+  if s.onBus.isNone && s.tSet.isSome && s.last == s.pac then { s with onBus := some (t, why) } else s
 
 /-- `send_raw(p)` at `t` and — when connected — the processing of the outgoing telegram.
 `upd`: the write is caused by an update (immediate `set` or cooldown task). -/
@@ -127,15 +127,21 @@ def send (c : Cfg) (s : St) (p : Nat) (resp upd : Bool) (t : Nat) : St × List O
 def restartCd (c : Cfg) (s : St) (t : Nat) : St :=
   if c.cool != 0 then { s with cd := some (t + c.cool), cdWait := false } else s
 
+/-- The update is taken: `_payload_after_cooldown = payload` (ghost: a new obligation starts). -/
+def takeUpdate (s : St) (p : Nat) (t : Nat) : St :=
+  { s with pac := some p, tSet := some t, connOk := s.conn, onBus := none }
+
+/-- `start_task(cooldown)` for a task that is not running. -/
+def startCd (c : Cfg) (s : St) (t : Nat) : St := { s with cd := some (t + c.cool) }
+
 /-- `await set(v, skip_unchanged)`. -/
 def doSet (c : Cfg) (s : St) (p : Nat) (skip : Bool) (t : Nat) : St × List Out :=
   if skip && s.pac == some p then (s, [])
   else
-    let s := { s with pac := some p, tSet := some t, connOk := s.conn, onBus := none }
-    let s := noteOnBus s t .already
+    let s := noteOnBus (takeUpdate s p t) t .already
     if c.cool != 0 then
       if s.cdRunning then (s, [])
-      else send c { s with cd := some (t + c.cool) } p false true t
+      else send c (startCd c s t) p false true t
     else send c s p false true t
 
 /-- `initialize_value(v)`. -/
@@ -147,8 +153,8 @@ def doRead (c : Cfg) (s : St) (t : Nat) : St × List Out :=
   if !c.respond then (s, [])
   else match s.pac with
     | some p =>
-      let (s, outs) := send c s p true false t
-      (restartCd c s t, outs)
+      let r := send c s p true false t
+      (restartCd c r.1 t, r.2)
     | none =>
       match s.last with
       | some l => send c s l true false t
@@ -160,33 +166,47 @@ def doBus (s : St) (p : Nat) (t : Nat) : St :=
 
 /-- `connection_state_changed`; a repeated state is ignored. The periodic task follows the connection
 (`restart_after_reconnect`); a cooldown task blocked on the connection runs its target. -/
+def clearCd (s : St) : St := { s with cd := none, cdWait := false }
+
+/-- the cooldown task loops: next firing one cooldown later -/
+def armCd (c : Cfg) (s : St) (t : Nat) : St := { s with cd := some (t + c.cool), cdWait := false }
+
 def cooldownTarget (c : Cfg) (s : St) (t : Nat) : St × List Out :=
   match s.pac with
-  | none => ({ s with cd := none, cdWait := false }, [])
+  | none => (clearCd s, [])
   | some p =>
-    if s.last == some p then ({ s with cd := none, cdWait := false }, [])
-    else send c { s with cd := some (t + c.cool), cdWait := false } p false true t
+    if s.last == some p then (clearCd s, [])
+    else send c (armCd c s t) p false true t
+
+/-- connection re-established: the periodic task is restarted -/
+def connUp (c : Cfg) (s : St) (t : Nat) : St :=
+  { s with conn := true, per := if c.per != 0 then some (t + c.per) else none }
+
+def connDown (s : St) : St := { s with conn := false, per := none, connOk := false }
 
 def doConn (c : Cfg) (s : St) (up : Bool) (t : Nat) : St × List Out :=
   if s.conn == up then (s, [])
   else if up then
-    let s := { s with conn := true, per := if c.per != 0 then some (t + c.per) else none }
-    if s.cdWait then cooldownTarget c s t else (s, [])
-  else ({ s with conn := false, per := none, connOk := false }, [])
+    if s.cdWait then cooldownTarget c (connUp c s t) t else (connUp c s t, [])
+  else (connDown s, [])
+
+/-- the cooldown task finds the connection down after its sleep and blocks -/
+def waitCd (s : St) : St := { s with cd := none, cdWait := true }
+
+/-- the periodic task loops -/
+def perLoop (c : Cfg) (s : St) (t : Nat) : St := { s with per := some (t + c.per) }
 
 /-- The cooldown task's sleep ends at `t`. -/
 def fireCd (c : Cfg) (s : St) (t : Nat) : St × List Out :=
-  if s.conn then cooldownTarget c s t
-  else ({ s with cd := none, cdWait := true }, [])
+  if s.conn then cooldownTarget c s t else (waitCd s, [])
 
 /-- The periodic task's sleep ends at `t`. -/
 def firePer (c : Cfg) (s : St) (t : Nat) : St × List Out :=
-  let s := { s with per := some (t + c.per) }
   match s.pac with
   | some p =>
-    let (s, outs) := send c s p false false t
-    (restartCd c s t, outs)
-  | none => (s, [])
+    let r := send c (perLoop c s t) p false false t
+    (restartCd c r.1 t, r.2)
+  | none => (perLoop c s t, [])
 
 def due (t : Nat) (incl : Bool) (d : Nat) : Bool := if incl then d ≤ t else d < t
 
@@ -202,9 +222,13 @@ def nextTimer (s : St) : Option Timer :=
   | none, some b => some (.per b)
   | none, none => none
 
+/-- Move the clock. -/
+def tick (s : St) (t : Nat) : St := { s with now := t }
+
+/-- A timer fires at its deadline. -/
 def fire (c : Cfg) (s : St) : Timer → St × List Out
-  | .cd d => fireCd c s d
-  | .per d => firePer c s d
+  | .cd d => fireCd c (tick s d) d
+  | .per d => firePer c (tick s d) d
 
 def Timer.at : Timer → Nat
   | .cd d | .per d => d
@@ -227,8 +251,8 @@ each firing can restart the cooldown task, which then fires once. -/
 def fuelFor (c : Cfg) (s : St) (t : Nat) : Nat :=
   (if c.per != 0 then 2 * ((t - s.now) / c.per) else 0) + 8
 
-def react (t : Nat) (r : St × List Out) : St :=
-  { r.1 with now := t, expect := r.2 }
+def react (r : St × List Out) : St :=
+  { r.1 with expect := r.2 }
 
 /-- An output observed while nothing is expected: the next timer, due at exactly `t`, fires. -/
 def fireAt (c : Cfg) (s : St) (o : Out) (t : Nat) : Option St :=
@@ -237,7 +261,7 @@ def fireAt (c : Cfg) (s : St) (o : Out) (t : Nat) : Option St :=
   | some tm =>
     if tm.at == t then
       let (s', outs) := fire c s tm
-      if outs.contains o then some { s' with now := t, expect := outs.erase o, log := o :: s'.log } else none
+      if outs.contains o then some { s' with expect := outs.erase o, log := o :: s'.log } else none
     else none
 
 def inputReaction (c : Cfg) (s : St) : Obs → Option (St × List Out)
@@ -266,8 +290,8 @@ def step? (c : Cfg) (s : St) (o : Obs) : Option St :=
     if !s.expect.isEmpty then none else
     (advance c o.time true (fuelFor c s o.time) s).bind fun s1 =>
       match sampleOk s1 o with
-      | some ok => if ok then some { s1 with now := o.time } else none
-      | none => (inputReaction c s1 o).map (react o.time)
+      | some ok => if ok then some (tick s1 o.time) else none
+      | none => (inputReaction c (tick s1 o.time) o).map react
 
 def accepts (c : Cfg) (connected : Bool) (tr : List Obs) : Bool :=
   (TraceRun.run? (step? c) (init c connected) tr).isSome
